@@ -54,15 +54,21 @@ fn printed(op: BinaryOperator, str_typed: bool) -> String {
   let heap = Heap::kani_empty();
   let table = SymbolTable::kani_empty();
   let strs: HashMap<PStr, usize> = HashMap::new();
-  let t = if str_typed { Type::Id(TypeNameId::STR) } else { Type::Int32 };
+  let (t1, t2) = if str_typed { (Type::Id(TypeNameId::STR), Type::Id(TypeNameId::STR)) } else { (Type::Int32, Type::Int32) };
   let st = Statement::Binary {
     name: PStr::LOWER_Z,
     operator: op,
-    e1: Expression::Variable(PStr::LOWER_A, t.clone()),
-    e2: Expression::Variable(PStr::LOWER_B, t),
+    e1: Expression::Variable(PStr::LOWER_A, t1),
+    e2: Expression::Variable(PStr::LOWER_B, t2),
   };
-  let mut s = String::new();
+  // pre-sized so that the printer's push_str calls never reallocate (keeps the CBMC query small)
+  let mut s = String::with_capacity(96);
   st.pretty_print_internal(&heap, &table, &strs, 0, &None, &mut s);
+  // the values were only read; skipping their (large, recursive) drop glue keeps the query small
+  std::mem::forget(st);
+  std::mem::forget(heap);
+  std::mem::forget(table);
+  std::mem::forget(strs);
   s
 }
 
@@ -70,7 +76,7 @@ fn printed(op: BinaryOperator, str_typed: bool) -> String {
 /// `Math.floor(A / B)`; comparisons are wrapped in Number(..); string (in)equality compares the
 /// payloads `A[1] === B[1]`
 fn expected(op: BinaryOperator, str_typed: bool) -> String {
-  let mut s = String::new();
+  let mut s = String::with_capacity(96);
   s.push_str("let z = ");
   let is_cmp = matches!(
     op,
@@ -111,7 +117,7 @@ macro_rules! op_harness {
   ($name:ident, $k:expr) => {
     #[kani::proof]
     #[kani::stub(std::hash::RandomState::new, rs_stub)]
-    #[kani::unwind(64)]
+    #[kani::unwind(40)]
     fn $name() {
       check($k);
     }
